@@ -9,14 +9,14 @@ def I(params, grid=None, tiers=("quick", "thorough"), **kw):
 I({"sym": 1, "case": 0, "no8bit": 0, "types": 0, "limit": 0}, expect_reach=["data-verified"])
 I({"sym": 1, "case": 0, "no8bit": 0, "types": 0}, {"limit": [512, 1232, 4096]})
 I({"sym": 1, "no8bit": 0, "types": 0, "limit": 0}, {"case": [1, 2]})
-I({"sym": 1, "case": 0, "no8bit": 1, "types": 0, "limit": 0})
+I({"sym": 1, "case": 0, "no8bit": 1, "types": 0, "limit": 0, "symup128": 1})
 I({"sym": 1, "case": 0, "no8bit": 0, "limit": 0}, {"types": [1, 2, 4, 5]})
 I({"sym": 0, "case": 0, "no8bit": 0, "limit": 0, "types": 3})
 I({"sym": 1, "case": 0, "no8bit": 0, "limit": 0, "types": 3}, tiers=("thorough",))
-I({"sym": 1, "case": 1, "no8bit": 1, "types": 2, "limit": 512})
+I({"sym": 1, "case": 1, "no8bit": 1, "types": 2, "limit": 512, "symup128": 1})
 I({"sym": 1, "case": 0, "no8bit": 0, "types": 1, "limit": 0, "empty": 1})
 I({"sym": 1, "case": 0, "no8bit": 0, "types": 0, "limit": 1232, "empty": 1})
-I({"sym": 1}, {"case": [0, 1, 2], "no8bit": [0, 1], "types": [0, 1, 2, 3, 4, 5], "limit": [0, 512, 1232, 2048, 4096]}, tiers=("thorough",), timeout_s=3000)
+I({"sym": 1, "no8bit": 0}, {"case": [0, 1, 2], "types": [0, 1, 2, 3, 4, 5], "limit": [0, 512, 1232, 2048, 4096]}, tiers=("thorough",), timeout_s=3000)
 I({"sym": 2, "case": 0, "no8bit": 0, "types": 0}, {"limit": [0, 1232]}, tiers=("thorough",), timeout_s=3000)
 HIGH = list(range(0xBC, 0xFE))  # the 8-bit octets of the Base128 alphabet
 I({"sym": 1, "case": 0, "no8bit": 0, "types": 0, "limit": 0, "substto": 63, "symup128": 1}, {"subst": HIGH})
@@ -25,9 +25,9 @@ spec = {"property": "C11", "package": D, "files": ["c11_handshake.go"], "native_
                   {"target": "math/rand.Intn", "with": D + ".vp11Intn"}],
         "instances": inst,
  "bounds": {
-  "paths": "path behaviours = products of: query-name case {kept, lowered, uppered} x names with 8-bit/control bytes {delivered, dropped} x answer types let through {all, all but NULL, CNAME+A, TXT only, MX+SRV, A+AAAA} x answer size limit {none, 512, 1232, 2048, 4096 wire bytes} x refusals delivered as silence or as an immediate empty reply (REFUSED / truncated); plus 66 paths that rewrite one octet value of the 8-bit Base128 alphabet (0xBC..0xFD, one path per value) into '?' inside query names and are otherwise transparent; quick: each dimension varied alone plus one combined path (13 paths), thorough: the full product (180 paths)",
+  "paths": "path behaviours = products of: query-name case {kept, lowered, uppered} x names with 8-bit/control bytes {delivered, dropped} x answer types let through {all, all but NULL, CNAME+A, TXT only, MX+SRV, A+AAAA} x answer size limit {none, 512, 1232, 2048, 4096 wire bytes} x refusals delivered as silence or as an immediate empty reply (REFUSED / truncated); plus 66 paths that rewrite one octet value of the 8-bit Base128 alphabet (0xBC..0xFD, one path per value) into '?' inside query names and are otherwise transparent; quick: each dimension varied alone plus one combined path (13 paths), thorough: the product of case x types x limit with 8-bit names delivered (90 paths) plus the two 8-bit-dropping paths of the quick tier",
   "negotiation": "the real ClientDnsConnection.Handshake (query-type, EDNS0, upstream codec, downstream codec, lazy mode, fragment size) against the real ServerDnsListener.onMessage, every exchange through miekg's real Msg.Pack/Unpack in both directions; it must end within 400 exchanges (a run on a transparent path needs about 120)",
-  "data": "(on the 66 octet-rewriting paths the upstream fragment has arbitrary bytes only when Base128 was settled on as upstream codec; otherwise it is the fixed pattern) after a successful negotiation one full-size upstream fragment (client Write -> server Read) and one full-size downstream fragment (server Write -> client poll/Read) whose first and last byte are arbitrary (2 at each end on two paths in the thorough tier) travel over the same path and must arrive unchanged",
+  "data": "(on the 66 octet-rewriting paths and the two 8-bit-dropping paths the upstream fragment has arbitrary bytes only when Base128 was settled on as upstream codec; otherwise it is the fixed pattern) after a successful negotiation one full-size upstream fragment (client Write -> server Read) and one full-size downstream fragment (server Write -> client poll/Read) whose first and last byte are arbitrary (2 at each end on two paths in the thorough tier) travel over the same path and must arrive unchanged",
   "outside": "random per-letter case flipping (0x20 hardening), resolvers that cache or reorder, timing (a dropped exchange is an immediate timeout error; timers fire only when nothing else can run), more than one fragment per direction"
  },
  "assumptions": [
